@@ -174,14 +174,28 @@ CHECKS["C02"] = dict(
          "`.org 0` and non-literal `.byte` are open known findings reported by the check." + PROG,
     note=BASE + " Search: 4000 (quick) / 80000 (thorough) generated layouts against an independent reference layout in vlib/c02.py.",
     tech="Coq proof (lock-step fold invariants over pass 1 / pass 2) + regenerated op/device tables + reference-layout oracle search", ref="3 C02")
+CHECKS["C11"] = dict(
+    text="Theorems (Props/C11.v) over Model/Fs.v (std::path components, PathBuf::push/parent, BTreeSet order; a file system of directories and "
+         "regular files) and Model/Files.v (parse_file_internal, build_file): C11_as_written / C11_in_set / C11_own_directory / C11_inherited / "
+         "C11_caller / C11_includepath / C11_file (a name is looked for as written, then below each directory of the include set; the set a "
+         "file is parsed with holds its own directory, the caller's directories, every earlier .includepath - relative ones resolved against "
+         "the file containing the directive); C11_not_found (found nowhere => the build fails); C11_include_is_paste: for every file system, "
+         "state and continuation, an .include line naming a found file whose text is a well-formed block tree (plain lines, conditionals, macro "
+         "definitions, any depth; no file directives), optionally ended by .exit + arbitrary text, makes the line loop end exactly as it does "
+         "on the file's lines pasted in place - definitions flow on, .exit ends only the file; C11_sorted_* (the set invariant the theorem "
+         "needs is kept by every step); C11_depth (self-inclusion ends in an error at depth 65)." + PROG.replace("Passes.build_str", "Files.build_file / Passes.build_str"),
+    note=BASE + " Correspondence on generated directory trees (nine ways of placing an included file, three working-directory modes, .exit, "
+         "missing files) and odd paths (., .., //, directories named as files, shadowed names in several searched directories = set order, "
+         "include chains of depth 62-66, self/mutual inclusion). Search oracle: real build_file(tree) = real build_str(pasted text). Not "
+         "modelled: symbolic links, a trailing slash after a file name, non-UTF-8 contents.",
+    tech="Coq proof (path/order lemmas, file-layer independence by mutual induction over block trees, reuse of the C08 refinement) + "
+         "differential correspondence on real directory trees + paste oracle", ref="3 C11")
 
 NOT_APPLICABLE = {}
 IN_PROGRESS = ("machinery built and green on the current tree (./check %s: model-vs-implementation correspondence + oracle search + "
                "kernel-checked examples); not claimed until its unbounded theorem is in Props/%s.v")
 for _p in ("C09",):
     NOT_APPLICABLE[_p] = IN_PROGRESS % (_p, _p)
-NOT_APPLICABLE["C11"] = ("not built yet: needs the file-system model (Model/Fs) and the directory-tree harness; the technique applies "
-                         "(DESIGN.md section 3 C11) - no claim is made for it in this commit")
 PENDING = ("claimed in DESIGN.md, machinery not built yet in this commit; listed here so that nothing unbuilt is claimed "
            "(technique applies - see DESIGN.md section 3)")
 
